@@ -352,6 +352,62 @@ def extra_check_cases(rng):
     return out
 
 
+def sibling_messages_oracle(run, rng, vs):
+    """Several messages alive in one process whose sets overlap (same MSH-2, different MSH-1; same
+    MSH-1, different MSH-2; same set, different version): each keeps reading back and encoding with
+    ITS OWN set, whatever was read from the others in between."""
+    import hl7apy
+    from hl7apy.core import Message
+    from hl7apy.parser import parse_message
+    n = 0
+    for v in vs:
+        inner = rng.sample([c for c in PUNCT if c not in '_\\|^~&!'], 6)   # '_' occurs in ADT_A01
+        f1, f2 = inner[4], inner[5]
+        sets = [(f1, inner[0], inner[1], inner[2], inner[3]), (f2, inner[0], inner[1], inner[2], inner[3]),
+                (f1, inner[1], inner[0], inner[2], inner[3]), ('|', '^', '~', '\\', '&'), ('!', '^', '~', '\\', '&')]
+        msgs = []
+        for (f, c, r, e, sb) in sets:
+            d = {'FIELD': f, 'COMPONENT': c, 'REPETITION': r, 'ESCAPE': e, 'SUBCOMPONENT': sb, 'SEGMENT': '\r', 'GROUP': '\r'}
+            mt = 'ADT%sA01%sADT_A01' % (c, c) if v >= '2.3.1' else 'ADT%sA01' % c
+            msh = f.join(['MSH', c + r + e + sb, 'A', 'B', 'C', 'D', '20200101', '', mt, '1', 'P', v])
+            text = '\r'.join([msh, f.join(['EVN', 'A01', '20200101']), f.join(['PID', '1', '', 'X' + c + 'Y' + sb + 'Z'])])
+            try:
+                m_api = Message('ADT_A01', version=v, encoding_chars=dict(d))
+                m_api.msh.msh_7 = '20200101'
+                m_par = parse_message(text, find_groups=False)
+            except Exception as ex:  # noqa
+                run.fail('construction-raises', 'building/parsing a message with a valid set raised', version=v,
+                         ec=[f, c, r, e, sb], level=2, exc=repr(ex))
+                continue
+            msgs.append((d, text, m_api, m_par))
+        for rounds in range(2):
+            order = list(range(len(msgs)))
+            rng.shuffle(order)
+            for i in order:
+                d, text, m_api, m_par = msgs[i]
+                n += 1
+                for which, m in (('api', m_api), ('parsed', m_par)):
+                    got = {k: m.encoding_chars.get(k) for k in ('FIELD', 'COMPONENT', 'REPETITION', 'ESCAPE', 'SUBCOMPONENT')}
+                    exp = {k: d[k] for k in got}
+                    if got != exp:
+                        run.fail('readback-differs', 'message.encoding_chars does not read back the set (other messages '
+                                 'with overlapping sets are alive in the process)', version=v, ec=[d['FIELD'], d['COMPONENT'],
+                                 d['REPETITION'], d['ESCAPE'], d['SUBCOMPONENT']], level=2, route='siblings-' + which,
+                                 got=got, expected=exp)
+                    for ch in m.msh.children:
+                        if ch.encoding_chars.get('FIELD') != d['FIELD']:
+                            run.fail('descendant-readback-differs', 'a descendant\'s encoding_chars differs from the '
+                                     'message\'s (other messages with overlapping sets are alive)', version=v,
+                                     ec=[d['FIELD'], d['COMPONENT']], level=2, route='siblings-' + which)
+                            break
+                out = m_par.to_er7()
+                if out != text:
+                    run.fail('reparse-differs', 'a parsed message does not encode back to its text while other messages '
+                             'with overlapping sets are alive', version=v, ec=[d['FIELD'], d['COMPONENT']], level=2,
+                             route='siblings', er7_again=out, text=text)
+    return n
+
+
 def main(argv=None):
     run = Run('C07', argv)
     if run.replay:
@@ -365,6 +421,7 @@ def main(argv=None):
     from hl7apy.exceptions import HL7apyException
     rng = run.rng
     vs = versions()
+    n_siblings = sibling_messages_oracle(run, rng, vs)
     nrand = 18 if not run.thorough else 240
     sg_cases = []      # (v, ec, msh1, msh2, encoding_chars dict, rest, header line)
     header_texts = []  # texts for get_message_info / get_message_type correspondence
